@@ -32,6 +32,7 @@ type Obligation struct {
 }
 
 type VC struct {
+	oblNames map[string]int
 	modElem map[string]bool
 	useSeq bool // byte-sequence facts are instantiated at slicing/append (contract flag "seq")
 	P        *Program
@@ -200,6 +201,13 @@ func (vc *VC) warn(f string, a ...any) {
 }
 
 func (vc *VC) oblige(kind, name, clause, cond, goal string, pos token.Pos, claimed bool) *Obligation {
+	if vc.oblNames == nil {
+		vc.oblNames = map[string]int{}
+	}
+	vc.oblNames[name]++
+	if n := vc.oblNames[name]; n > 1 {
+		name = fmt.Sprintf("%s#%d", name, n)
+	}
 	o := &Obligation{Name: name, Func: vc.qname, Kind: kind, Clause: clause, Cond: cond, Goal: goal, NLines: len(vc.lines), Claimed: claimed, vc: vc}
 	if pos.IsValid() {
 		p := vc.P.Prog.Fset.Position(pos)
@@ -651,7 +659,7 @@ func (vc *VC) fieldAddr(T types.Type, i int, ref string) (*Addr, string) {
 	}
 	sort := vc.sortOf(f.Type())
 	hv := vc.heapVar("F!"+key, "(Array Int "+sort+")")
-	if n, ok := T.(*types.Named); ok && !inModule(n.Obj().Pkg()) {
+	if n, ok := T.(*types.Named); ok && !inModule(n.Obj().Pkg()) && !vc.DB.LibKeeps[typeKey(T)] {
 		if vc.libVars == nil {
 			vc.libVars = map[string]bool{}
 		}
